@@ -282,20 +282,19 @@ def run_dro(case, ses):
     n0 = len(ses.findings)
     # c03/c04 look members up by name: register the history members there for the duration of the call
     from .. import drogen
-    orig = drogen.members
+    orig = drogen.lookup
 
-    def patched():
-        m = orig()
-        m.update(dro_histories())
-        return m
-    c03.members = patched
-    c04.members = patched
+    def patched(nm):
+        H = dro_histories()
+        return H[nm] if nm in H else orig(nm)
+    c03.lookup = patched
+    c04.lookup = patched
     try:
         c03.run_case(dict(name=name), ses)
         c04.run_case(dict(name=name), ses)
     finally:
-        c03.members = orig
-        c04.members = orig
+        c03.lookup = orig
+        c04.lookup = orig
     rekey(ses, n0, name)
 
 
@@ -303,20 +302,19 @@ def replay(data, verbose=False):
     import importlib
     if data.get('k') == 'delegate':
         from .. import drogen
-        orig = drogen.members
+        orig = drogen.lookup
 
-        def patched():
-            m = orig()
-            m.update(dro_histories())
-            return m
-        c03.members = patched
-        c04.members = patched
+        def patched(nm):
+            H = dro_histories()
+            return H[nm] if nm in H else orig(nm)
+        c03.lookup = patched
+        c04.lookup = patched
         try:
             modname, fn = data['replayer'].split(':')
             return getattr(importlib.import_module(modname), fn)(data['data'], verbose=verbose)
         finally:
-            c03.members = orig
-            c04.members = orig
+            c03.lookup = orig
+            c04.lookup = orig
     if verbose:
         print('optimum after history differs from the fresh build; spec:', data.get('spec', {}).get('name'))
     return True
